@@ -626,3 +626,105 @@ impl<'a, T> ExactSizeIterator for IterMut<'a, T> {
         if hi > lo { hi - lo } else { 0 }
     }
 }
+
+// ---- appended for qrecovery::journal::sent (C10): same sequence model, index-walking range_mut ----
+// `SentJournal::{on_packet_acked, may_loss_packet}` return `queue.range_mut(a..b).map(clone)` with
+// SYMBOLIC a and b. `IterMut` above walks a `core::slice::IterMut` and returns from inside its
+// loop, so after one `next()` the slice iterator's pointer is a 7-way case split and every further
+// `next()` multiplies it (measured: +90 K SAT variables for the first `next()`, +250 K for each
+// further one). `RangeMutIdx` keeps only two integers and fetches the cell with `get_mut(pos)`
+// (constant-trip loop, guarded pointer select) — same elements, same order, same aliasing
+// guarantees (each index is handed out once).
+pub struct VecDequeIdx<T>(VecDeque<T>);
+
+impl<T> VecDequeIdx<T> {
+    pub fn new() -> Self {
+        Self(VecDeque::new())
+    }
+    pub fn with_capacity(_c: usize) -> Self {
+        Self::new()
+    }
+    pub fn len(&self) -> usize {
+        self.0.len()
+    }
+    pub fn is_empty(&self) -> bool {
+        self.0.is_empty()
+    }
+    pub fn push_back(&mut self, v: T) {
+        self.0.push_back(v)
+    }
+    pub fn pop_front(&mut self) -> Option<T> {
+        self.0.pop_front()
+    }
+    pub fn get(&self, idx: usize) -> Option<&T> {
+        self.0.get(idx)
+    }
+    pub fn get_mut(&mut self, idx: usize) -> Option<&mut T> {
+        self.0.get_mut(idx)
+    }
+    pub fn front(&self) -> Option<&T> {
+        self.0.front()
+    }
+    pub fn back(&self) -> Option<&T> {
+        self.0.back()
+    }
+    pub fn iter(&self) -> Iter<'_, T> {
+        self.0.iter()
+    }
+    pub fn range<R: RangeBounds<usize>>(&self, r: R) -> Iter<'_, T> {
+        self.0.range(r)
+    }
+    pub fn drain<R: RangeBounds<usize>>(&mut self, r: R) -> Drain<T> {
+        self.0.drain(r)
+    }
+    pub fn clear(&mut self) {
+        self.0.clear()
+    }
+    pub fn range_mut<R: RangeBounds<usize>>(&mut self, r: R) -> RangeMutIdx<'_, T> {
+        let (s, e) = resolve(r, self.0.len);
+        RangeMutIdx { d: &mut self.0 as *mut VecDeque<T>, pos: s, end: e, _m: core::marker::PhantomData }
+    }
+    pub fn iter_mut(&mut self) -> RangeMutIdx<'_, T> {
+        let e = self.0.len;
+        RangeMutIdx { d: &mut self.0 as *mut VecDeque<T>, pos: 0, end: e, _m: core::marker::PhantomData }
+    }
+}
+
+impl<T> Default for VecDequeIdx<T> {
+    fn default() -> Self {
+        Self::new()
+    }
+}
+
+impl<T: core::fmt::Debug> core::fmt::Debug for VecDequeIdx<T> {
+    fn fmt(&self, f: &mut core::fmt::Formatter<'_>) -> core::fmt::Result {
+        self.0.fmt(f)
+    }
+}
+
+pub struct RangeMutIdx<'a, T> {
+    d: *mut VecDeque<T>,
+    pos: usize,
+    end: usize,
+    _m: core::marker::PhantomData<&'a mut VecDeque<T>>,
+}
+
+impl<'a, T> Iterator for RangeMutIdx<'a, T> {
+    type Item = &'a mut T;
+    fn next(&mut self) -> Option<&'a mut T> {
+        if self.pos < self.end {
+            let p = self.pos;
+            self.pos += 1;
+            // SAFETY: `d` is exclusively borrowed for 'a (PhantomData) and every index in
+            // [pos, end) is handed out exactly once, so the returned references never alias.
+            let cell: Option<&mut T> = unsafe { (*self.d).get_mut(p) };
+            cell.map(|x| unsafe { &mut *(x as *mut T) })
+        } else {
+            None
+        }
+    }
+    fn size_hint(&self) -> (usize, Option<usize>) {
+        (self.end - self.pos, Some(self.end - self.pos))
+    }
+}
+impl<'a, T> ExactSizeIterator for RangeMutIdx<'a, T> {}
